@@ -1,7 +1,6 @@
 package lint
 
 import (
-	"os"
 	"fmt"
 	"go/ast"
 	"go/constant"
@@ -683,22 +682,13 @@ func rerootFrame(pf, root *frame) *frame {
 // text folded and the arguments resolved in the frame of that call. nil if the site is not of
 // this kind or some call cannot be resolved (the site then stays where it is and is reported).
 func (m *Model) rehome(site *SQLSite, args []ssa.Value) (res []*SQLSite) {
-	dbgNil := func(i int) []*SQLSite {
-		if os.Getenv("RL_DBG") != "" {
-			fmt.Fprintln(os.Stderr, "DBG rehome fail", site.Fn, i)
-		}
-		return nil
-	}
 	h := site.Fn
-	if os.Getenv("RL_DBG") != "" {
-		defer func() { fmt.Fprintln(os.Stderr, "DBG rehome", h, site.Holes, len(res)) }()
-	}
 	if site.Holes == 0 || site.IsSchema || len(args) == 0 || h.Parent() != nil || ast.IsExported(h.Name()) {
-		return dbgNil(1)
+		return nil
 	}
 	p, ok := stripConv(args[0]).(*ssa.Parameter)
 	if !ok || p.Parent() != h {
-		return dbgNil(2)
+		return nil
 	}
 	// the helper's results must be the statement's own results (so that Scan / RowsAffected link up)
 	if cv := site.Call.Value(); cv != nil {
@@ -713,25 +703,25 @@ func (m *Model) rehome(site *SQLSite, args []ssa.Value) (res []*SQLSite) {
 				}
 			}
 			if !okRet {
-				return dbgNil(3)
+				return nil
 			}
 		}
 	}
 	callers := m.staticCallersOf(h)
 	if len(callers) == 0 {
-		return dbgNil(4)
+		return nil
 	}
 	var out []*SQLSite
 	for _, c := range callers {
 		if _, isCall := c.(*ssa.Call); !isCall {
-			return dbgNil(5)
+			return nil
 		}
 		g := c.Parent()
 		fr := topFrame(g).inline(c, h)
 		ev := newStrEval(m)
 		texts, ok := ev.eval(args[0], fr)
 		if !ok || ev.holes > 0 || len(texts) == 0 {
-			return dbgNil(6)
+			return nil
 		}
 		clone := &SQLSite{Call: c, Fn: g, Method: site.Method, Recv: site.Recv, Named: map[string]Binding{}, Helper: h, posFr: map[int]*frame{}}
 		if tv, _, ok := fr.actual(p); ok {
@@ -750,7 +740,7 @@ func (m *Model) rehome(site *SQLSite, args []ssa.Value) (res []*SQLSite) {
 		if len(args) > 1 {
 			elems, ok := m.sliceElems(args[1], fr, 0)
 			if !ok {
-				return dbgNil(7)
+				return nil
 			}
 			for _, el := range elems {
 				sv := stripConv(el.V)
